@@ -167,6 +167,24 @@ def check_set_dtype_checks(ctx, rule, m):
         cs = [(U(s[1]), s[2]) for s in path if s[0] == "cond"]
         if ("np.issubdtype(value, np.integer)", True) in cs and ("self.dtype.kind == 'f'", True) in cs:
             guard_ok = True
+    # the range check must be reached on every checked, non-castable path - also for float targets
+    missing_range = 0
+    n_checked = 0
+    for path in function_paths(sd.node):
+        cs = [(U(s[1]), s[2]) for s in path if s[0] == "cond"]
+        if not consistent(path):
+            continue
+        if ("check", True) not in cs or not any(t.startswith("self.dtype is None or np.can_cast") and v is False for t, v in cs):
+            continue
+        if end_kind(path) == "raise":
+            continue
+        n_checked += 1
+        if not any("type_info.max" in t for t, v in cs):
+            missing_range += 1
+    ctx.check(n_checked > 0 and missing_range == 0, rule, "HistogramBase.set_dtype:range-check-every-target",
+              f"all {n_checked} checked non-castable converting paths test the values against the target type's range",
+              f"{missing_range} of {n_checked} checked, non-castable paths convert without the range test (e.g. it is nested under the integer-target test, "
+              "so narrowing to a smaller float type is never checked)", sd.where)
     ctx.check(guard_ok, rule, "HistogramBase.set_dtype:integrality-guard",
               "integrality is checked when the target is integral and the source is floating",
               "the integrality check is no longer applied for float -> integer conversions", sd.where)
@@ -197,6 +215,37 @@ def check_missed_alloc(ctx, rule, m):
                   "(e.g. NaN 'unknown' markers are rewritten)", init.where)
 
 
+def check_operator_coercion(ctx, rule, m, names=("__iadd__", "__isub__", "__imul__", "__itruediv__")):
+    """Arithmetic operators coerce the histogram's dtype with the operand's / factor's dtype (float for division) first."""
+    HB = m.cls("HistogramBase")
+
+    def arg_is(*texts):
+        return lambda a, env: U(a) in texts or U(env.expand(a)) in texts
+
+    def dtype_of_asarray(param):
+        def acc(a, env):
+            e = env.expand(a)
+            t = U(e)
+            return t in (f"np.asarray({param}).dtype", f"type({param})", f"np.asarray({param}, dtype=None).dtype",
+                         f"np.dtype(type({param}))", f"np.array({param}).dtype")
+        return acc
+    if "__iadd__" in names:
+        pass
+    ia = HB.methods["__iadd__"]
+    o = [p for p in ia.params() if p != "self"][0]
+    _site(ctx, rule, ia, "histogram-operand", lambda p, e: _cond(p, f"isinstance({o}, HistogramBase)"), arg_is(f"{o}.dtype"), floor=2)
+    _site(ctx, rule, ia, "array-operand", lambda p, e: _cond(p, f"isinstance({o}, HistogramBase)", False),
+          dtype_of_asarray(o), floor=1)
+    isub = HB.methods["__isub__"]
+    o = [p for p in isub.params() if p != "self"][0]
+    _site(ctx, rule, isub, "histogram-operand", lambda p, e: _cond(p, f"isinstance({o}, HistogramBase)"), arg_is(f"{o}.dtype"), floor=1)
+    im = HB.methods["__imul__"]
+    o = [p for p in im.params() if p != "self"][0]
+    _site(ctx, rule, im, "factor", lambda p, e: True, dtype_of_asarray(o), floor=2)
+    idv = HB.methods["__itruediv__"]
+    _site(ctx, rule, idv, "division", lambda p, e: True, lambda a, env: U(a) in FLOAT_TYPES, floor=2)
+
+
 def run(ctx):
     m = ctx.model
     H1, HN, HB, H2 = m.cls("Histogram1D"), m.cls("HistogramND"), m.cls("HistogramBase"), m.cls("Histogram2D")
@@ -214,19 +263,7 @@ def run(ctx):
         return acc
 
     check_fill_coercion(ctx, "C13.a", m)
-    ia = HB.methods["__iadd__"]
-    o = [p for p in ia.params() if p != "self"][0]
-    _site(ctx, "C13.a", ia, "histogram-operand", lambda p, e: _cond(p, f"isinstance({o}, HistogramBase)"), arg_is(f"{o}.dtype"), floor=2)
-    _site(ctx, "C13.a", ia, "array-operand", lambda p, e: _cond(p, f"isinstance({o}, HistogramBase)", False),
-          dtype_of_asarray(o), floor=1)
-    isub = HB.methods["__isub__"]
-    o = [p for p in isub.params() if p != "self"][0]
-    _site(ctx, "C13.a", isub, "histogram-operand", lambda p, e: _cond(p, f"isinstance({o}, HistogramBase)"), arg_is(f"{o}.dtype"), floor=1)
-    im = HB.methods["__imul__"]
-    o = [p for p in im.params() if p != "self"][0]
-    _site(ctx, "C13.a", im, "factor", lambda p, e: True, dtype_of_asarray(o), floor=2)
-    idv = HB.methods["__itruediv__"]
-    _site(ctx, "C13.a", idv, "division", lambda p, e: True, lambda a, env: U(a) in FLOAT_TYPES, floor=2)
+    check_operator_coercion(ctx, "C13.a", m)
     pn = H2.methods["partial_normalize"]
     _site(ctx, "C13.a", pn, "division", lambda p, e: True, lambda a, env: U(a) in FLOAT_TYPES, floor=1)
     HC = m.cls("HistogramCollection")
